@@ -735,9 +735,10 @@ class Deps:
 # A5: must-pass-through along Ok edges
 
 
-def error_blocks(fn):
+def error_blocks(fn, none_is_failure=False):
     """blocks that assign an error value to the return place (Err(..) aggregate, from_residual call, or a
-    Break/None carrier), i.e. blocks that can only lie on a non-Ok exit"""
+    Break/None carrier), i.e. blocks that can only lie on a non-Ok exit.  none_is_failure: a function returning Option
+    that reports failure as `None` (a fallible helper whose caller only needs to know whether it worked)"""
     out = set()
     rets = {(0, ())} | {(r, ()) for r in fn.__dict__.get('inlined_ret_locals', ())}
     for bi in fn.reachable():
@@ -746,6 +747,9 @@ def error_blocks(fn):
             if s['k'] == 'assign' and place_key(s['lhs']) in rets:
                 rv = s['rv']
                 if rv['k'] == 'agg' and rv.get('ak') == 'adt' and rv['adt'] in VARIANTS and rv['variant'] in ('Err', ):
+                    out.add(bi)
+                if none_is_failure and rv['k'] == 'agg' and rv.get('ak') == 'adt' and rv['adt'] == 'core::option::Option' and \
+                        rv.get('variant') == 'None':
                     out.add(bi)
         t = b['term']
         if t['k'] == 'call' and place_key(t['dest']) in rets and (t.get('callee') or '').endswith(
